@@ -173,6 +173,30 @@ class RngSeam:
 
     random = random_sample
 
+    # -- integers --------------------------------------------------------------
+    def randint(self, low, high=None, size=None, dtype=int):
+        import numpy as np
+        if high is None:
+            low, high = 0, low
+        low, high = int(low), int(high)
+        if high <= low:
+            raise ValueError("low >= high")
+        n = 1 if size is None else int(np.prod(size))
+        if n > 4:
+            raise HarnessError("RNG seam: %d random integers requested, bound is 4" % n)
+        self.calls = getattr(self, "calls", 0) + 1
+        if self.calls > 12:
+            raise HarnessError("RNG seam: more than 12 integer draws in one execution (rejection loop?) - horizon reached")
+        self.log.append(("randint", low, high, n))
+        vals = []
+        for t in range(n):
+            c = self.ch.choose(high - low, "randint[%d]" % t)
+            vals.append(low + c)
+            self.prob *= Fraction(1, high - low)
+        if size is None:
+            return vals[0]
+        return np.array(vals, dtype=dtype).reshape(size)
+
 
 def _nth_combination(N, k, index):
     """index-th k-subset of range(N) in lexicographic order."""
@@ -189,8 +213,8 @@ def _nth_combination(N, k, index):
     return tuple(out)
 
 
-_PATCHED = ("choice", "shuffle", "permutation", "rand", "random", "random_sample")
-_FORBIDDEN = ("randint", "randn", "uniform", "normal", "random_integers", "ranf", "sample", "bytes", "multinomial",
+_PATCHED = ("choice", "shuffle", "permutation", "rand", "random", "random_sample", "randint")
+_FORBIDDEN = ("randn", "uniform", "normal", "random_integers", "ranf", "sample", "bytes", "multinomial",
               "binomial", "poisson", "exponential", "standard_normal", "beta", "gamma")
 
 
